@@ -34,8 +34,8 @@ LEVEL_NOTE = (
 TECHNIQUE = ("Lean 4 proofs by induction over a hand model (hole lists, sections, images) + regenerated relocation table + differential "
              "correspondence with the real linker; the property itself is evaluated on real relaxed/unrelaxed link pairs with the Lean "
              "decoders and the Lean RV32 interpreter as oracles")
-RULE = ("corpus of 26 fixed links (C.J edges +-2044..2052, hole accounting, multi-section/multi-image, DEFINESYMBOL, data references, "
-        "no layout, jal with other link registers, the open findings) + generated 'maze' programs (quick 30, thorough 160: 2-9 blocks "
+RULE = ("corpus of 28 fixed links (C.J edges +-2044..2052, hole accounting, multi-section/multi-image, DEFINESYMBOL, data references, "
+        "no layout, jal with other link registers, the open findings) + generated 'maze' programs (quick 30, thorough 120: 2-9 blocks "
         "and 0-3 functions scattered over 1-3 objects and 1-3 code sections, gaps around the 2 KiB reach, relaxable and base jumps, "
         "branches, calls, abs/pc-relative data references, 1-2 code memories incl. adjacent ones) + 2 C programs compiled by ppci for "
         "riscv:rvc. evaluation = one (unrelaxed, relaxed) link pair / one decoded reference / one emulated run / one model request; "
@@ -190,7 +190,7 @@ def imgdata_of(img):
         return "!" + type(e).__name__
 
 
-def real_links(objs, layout_text):
+def real_links(objs, layout_text, extra_symbols=None):
     """The same link twice through ppci.api.link: with `Linker.do_relaxations` replaced by a no-op (U) and
     unchanged (R).  PRE/POST are the destination object right before / after `do_relaxations`."""
     from ppci import api
@@ -221,7 +221,7 @@ def real_links(objs, layout_text):
             Linker.do_relaxations = fn
             last.clear()
             try:
-                res[key] = snap(api.link(objs, layout=lay()))
+                res[key] = snap(api.link(objs, layout=lay(), extra_symbols=dict(extra_symbols) if extra_symbols else None))
             except Exception as e:  # noqa
                 res[key + "_exc"] = type(e).__name__
                 res[key + "_at"] = last.get("r")
@@ -594,6 +594,12 @@ def corpus():
     # offset stays (it denotes the end of the bytes that are kept), one behind it moves with the following code
     case("labels-at-holes", [["global start", "start:", "@j a", "a:", "@j b", "b:"] + acc(1) + ["ebreak"]],
          extra_symbols=[["m2", "code", 2], ["m3", "code", 3], ["m4", "code", 4], ["m6", "code", 6], ["m8", "code", 8], ["mend", "code", 20]])
+    # relocation entries listed back to front (holes get registered in descending order: the sort matters)
+    case("reversed-relocation-list", [["global start", "start:", "@j a", "a:", "@j b", "b:"] + acc(1) + ["@jal x1 f", "c:"] + acc(2) +
+                                      ["@j e", "e:", "ebreak", "f:", "c.jr x1"]], reverse_relocs=True)
+    # an absolute symbol (linker extra_symbols: no section) referenced from code and data next to shrunk jumps
+    case("absolute-symbol", [["global start", "global abs1", "start:", "@j a", "a:", "lui x6, abs1", "addi x6, x6, abs1", "add x10, x10, x6", "@j b", "b:", "ebreak",
+                              "section data", "dcd =abs1", "dcd =b"]], layout=CODE_DATA, link_extra={"abs1": 0x1234})
     # several sections in one image, jumps across them, a DEFINESYMBOL after the shrunk section
     case("multi-section", [["global start", "start:", "@j a", "a:", "@jal x1 f"] + acc(1) + ["@j g", "section code2", "g:"] + acc(2) +
                            ["@j h", "h:", "lui x6, endsym", "addi x6, x6, endsym", "ebreak", "section code3", "f:"] + acc(3) + ["c.jr x1"]],
@@ -743,7 +749,7 @@ def build_c_case(k):
     """a C program compiled by ppci for riscv:rvc (the code generator emits cb_imm11 / cbl_imm11) + start code"""
     import contextlib
     from ppci.api import cc
-    with contextlib.redirect_stdout(io.StringIO()):          # ppci prints its warnings
+    with contextlib.redirect_stdout(io.StringIO()), contextlib.redirect_stderr(io.StringIO()):   # ppci prints its warnings
         obj = cc(io.StringIO(C_SOURCES[k]), arch())
     return obj
 
@@ -756,6 +762,9 @@ def run_cases(ctx, cases, extra=()):
     for case in cases:
         try:
             objs = [build_object(l) for l in case["objs"]]
+            if case.get("reverse_relocs"):                            # the order of relocation entries carries no meaning
+                for o in objs:
+                    o.relocations.reverse()
             for name, sec, val in case.get("extra_symbols", []):      # labels at arbitrary offsets of object 0
                 objs[0].add_symbol(len(objs[0].symbols), name, "local", val, sec, "object", 0)
             if "csrc" in case:
@@ -764,7 +773,7 @@ def run_cases(ctx, cases, extra=()):
             ctx.count("asm-fails")
             ctx.note(f"case {case['name']} does not assemble: {type(e).__name__}: {str(e)[:100]}")
             continue
-        res = real_links(objs, case.get("layout"))
+        res = real_links(objs, case.get("layout"), case.get("link_extra"))
         built.append((case, res))
     lines, plan = [], []
     evals = []
@@ -866,7 +875,7 @@ def run_cases(ctx, cases, extra=()):
 
 def check(ctx):
     cases = corpus()
-    n = 160 if ctx.thorough else 30
+    n = 120 if ctx.thorough else 30
     for i in range(n):
         cases.append(gen_case(ctx.rng, i, ctx.thorough))
     for k in range(len(C_SOURCES)):
